@@ -89,6 +89,24 @@ def check_module(res, c, T):
         res.violation(f"C02:project-type:{T}", f"project context gives {[type(x).__name__ for x in p2.modules]}", desc)
         return
     compare(res, T, "project", S_proj, build.norm_module(snapshot.snap_module(p2.modules[1], "project"), "after"), desc)
+    # (d) the object has now been written several times: edit it in place and write it again
+    #     (a writer that keeps bytes from an earlier save / load would replay them here)
+    from . import c06
+    import random as _random
+    p.modules[1] = None  # detach from the scratch project without touching the module's state
+    m.parent, m.index = None, None
+    syn2 = api.Synth(m)
+    applied = c06.mutate_live(syn2, _random.Random(c.seed * 7919 + c.index), 8, prefer=("/effect/", "/payload/"))
+    if applied:
+        res.count("resave_after_edit")
+        S_new = build.norm_module(snapshot.snap_module(m, "synth"), "before")
+        try:
+            cl2 = m.clone()
+        except Exception as e:
+            res.violation(f"C02:resave-raises:{T}:{workload.exc_key(e)}", f"{T}: saving again after in-place edits {applied[:3]} raised {e!r}", desc)
+            return
+        for path, x, y in snapshot.diff(S_new, build.norm_module(snapshot.snap_module(cl2, "synth"), "after"))[:3]:
+            res.violation(f"C02:resave-stale:{T}:{snapshot.field_key(path)}", f"{T}: after in-place edits {applied[:4]} and a second save, {path}: object {x}, file {y}", desc)
     # unit coverage
     t = spec.load()[T]
     for sc in t.controllers:
